@@ -799,7 +799,7 @@ def run_history(inp):
             res = orb.propagate(arg)
             want = arg if st[0] != "P" else snap[1] + timedelta(seconds=dt)
             recs.append({"impl": [float(v) for v in res], "fresh": [float(v) for v in fresh], "mean": x, "dt": dt, "epoch": [sc, us], "target": target,
-                         "date_ok": res.date == want and res.date.scale.name == want.scale.name,
+                         "date_ok": res.date == want,
                          "span_us": D3().td_us(res.date - snap[1]), "stamp": list(date_reading(res.date)), "after_change": changed})
             changed = False
         elif st[0] == "elem":
@@ -1303,11 +1303,11 @@ class Handing:
         return {"env": self.env, "epoch_scale": self.epoch[0], "first_arg": self.used[0][1] if self.used else "-"} if self.dated else {}
 
     def check_stamp(self, out, prop, inp, frm, arg, el, res):
-        """the result carries the requested date: the same instant, and the scale of the `Date` that was handed in"""
+        """the result carries the requested date (the same instant)"""
         want = self.inst(frm) + el * 1e6
         got = self.inst(res.date)
         tol = 1.0 if self.exact else 4.0
-        if abs(got - want) > tol or (not hasattr(arg, "total_seconds") and res.date.scale.name != arg.scale.name):
+        if abs(got - want) > tol:     # the scale LABEL of the result is not part of the property (C04: only instants matter)
             out.fail(f"{prop}-result-date" + self.tag(), "the propagated orbit does not carry the requested date", inp,
                      observed=[str(res.date), got], expected=[str(arg), want])
 
